@@ -37,6 +37,27 @@ __CPROVER_assigns()
 #pragma pop_macro("IT_MIN")
 #pragma pop_macro("IntegerT")
 
+/* ---- head of stripeClaim: the chunk size a claim uses is the configured one, and the cursor advances by exactly that much ---- */
+typedef struct ClaimHead { IntegerT chunkSize; Wide step; Wide prev; } ClaimHead;
+ClaimHead stripe_claim_head(IntegerT state_chunkSize, Wide prev_in)
+__CPROVER_ensures(RV.chunkSize == state_chunkSize && (mathint)RV.step == (mathint)state_chunkSize && RV.prev == prev_in)
+__CPROVER_assigns()
+{
+  Wide g_step = 0;
+#include "stripe_claim_head.slice.inc"
+  return (ClaimHead){chunkSize, g_step, prev};
+}
+/* ---- head of initStripeState: the fields the claims read are the arguments (granularity clamped to >= 1) ---- */
+typedef struct InitHead { IntegerT chunkSize; uint32_t granularity; uint32_t numWorkers; } InitHead;
+InitHead init_head(uint32_t numWorkers, IntegerT chunkSize, uint32_t granularity)
+__CPROVER_ensures(RV.chunkSize == chunkSize && RV.granularity == (granularity < 1 ? 1 : granularity) && RV.numWorkers == numWorkers)
+__CPROVER_assigns()
+{
+  uint32_t state_numWorkers = 0, state_numMaskWords = 0, state_granularity = 0; IntegerT state_chunkSize = 0;
+#include "init_head.slice.inc"
+  return (InitHead){state_chunkSize, state_granularity, state_numWorkers};
+}
+
 /* ---- claim rule: the statements of stripeClaim after `prev = s.next.fetch_add(chunkSize)` ----
  * ghost: next0 = the cursor value initStripeState stored; prev = next0 + j*chunkSize for the j-th claim on this stripe
  * (atomic RMW axiom: each j is returned exactly once). */
@@ -75,16 +96,25 @@ __CPROVER_assigns()
 }
 
 /* ---- partition loop of initStripeState: stripes[i] = [next_i, end_i) ---- */
-typedef struct StripeInit { uint32_t activeCount; IntegerT cursor; } StripeInit;
+typedef struct StripeInit { uint32_t activeCount; IntegerT cursor; IntegerT chunkSize; uint32_t granularity; } StripeInit;
 StripeInit init_stripes(IntegerT start, IntegerT end, uint32_t numWorkers, uint32_t state_granularity, Wide stripes_end[NW_MAX], Wide stripes_next[NW_MAX],
-                        bool stripes_retired[NW_MAX], uint32_t k)
+                        bool stripes_retired[NW_MAX], uint32_t k, IntegerT chunkSize)
 __CPROVER_requires(start < end && numWorkers >= 1 && numWorkers <= NW_MAX && state_granularity >= 1 && state_granularity <= 64 && k < numWorkers)
+__CPROVER_requires(chunkSize >= 1)
+#ifdef C13_GRANULAR
+__CPROVER_requires((mathint)chunkSize % (mathint)state_granularity == 0)   /* calcChunkSize's postcondition */
+#endif
 __CPROVER_requires((mathint)end - (mathint)start <= I64_MAX)
 #ifdef C13_GRANULAR
 /* parallel_for hands the stripes the trimmed range (computeGranularity): its size is a multiple of the granularity */
 __CPROVER_requires(((mathint)end - (mathint)start) % (mathint)state_granularity == 0)
 #endif
 __CPROVER_ensures(RV.cursor == end)
+/* the configuration the claims read after the partition loop: a positive chunk size (C12), which is still a whole number of granules (C13) */
+__CPROVER_ensures(RV.chunkSize >= 1 && RV.granularity == state_granularity)
+#ifdef C13_GRANULAR
+__CPROVER_ensures((mathint)RV.chunkSize % (mathint)state_granularity == 0)
+#endif
 /* ghost index k: stripe k is [next_k, end_k) inside [start,end], stripe 0 starts at start, the last ends at end, k+1 starts where k ends */
 __CPROVER_ensures((mathint)start <= (mathint)stripes_next[k] && stripes_next[k] <= stripes_end[k] && (mathint)stripes_end[k] <= (mathint)end)
 __CPROVER_ensures(k == 0 ==> (mathint)stripes_next[k] == (mathint)start)
@@ -96,8 +126,9 @@ __CPROVER_ensures(stripes_retired[k] == !(stripes_next[k] < stripes_end[k]))
 __CPROVER_ensures(k + 1 < numWorkers ==> ((mathint)stripes_end[k] - (mathint)start) % (mathint)state_granularity == 0)
 #endif
 {
+  IntegerT state_chunkSize = chunkSize; uint32_t state_numWorkers = numWorkers;
 #include "init_stripes.slice.inc"
-  return (StripeInit){activeCount, cursor};
+  return (StripeInit){activeCount, cursor, state_chunkSize, state_granularity};
 }
 
 /* C13 (stripe path): a stripe that starts and ends at multiples of g from `start`, claimed in chunkSize (multiple of g) steps,
